@@ -171,10 +171,19 @@ impl Lift for SubWordValue {
                 _ => value,
             };
 
+            // The shifted mask selects bits of the original value starting at this position.
+            // The value has no bits at or beyond the word size (a shift only ever brings in
+            // zeroes), so such a position is not a sub-word, and the part of the mask that
+            // extends beyond the word selects nothing
+            let position = offset
+                .checked_add(shift)
+                .filter(|position| *position < WORD_SIZE_BITS)?;
+            let length = length.min(WORD_SIZE_BITS - position);
+
             // If we find a word, we can easily construct the return data
             let payload = SVD::SubWord {
                 value,
-                offset: offset + shift,
+                offset: position,
                 size: length,
             };
 
